@@ -8,7 +8,7 @@ def instances():
     out = []
     for kind in range(6):
         for cl in range(6):
-            out.append(Inst(id="c07.begin.k%d.c%d" % (kind, cl), props=["C07", "C15", "C01"], harness="h_c07.cpp", entry="c07_begin", tus=TUS,
+            out.append(Inst(id="c07.begin.k%d.c%d" % (kind, cl), props=["C07", "C15", "C14", "C01"], harness="h_c07.cpp", entry="c07_begin", tus=TUS,
                             defs=["VX_KIND=%d" % kind, "VX_CL=%d" % cl], stubs=FMT_STUBS + CTX_STUBS + CONTAINER_STUBS,
                             unwind=4, timeout=400, tier="quick", mem_gb=12,
                             bounds="raised kind and clause list are instance parameters (6 kinds x 6 clause lists of <= 2 clauses)",
